@@ -331,16 +331,19 @@ class DetachedSymArray(SymArray):
 _SHIFT_COUNTER = [0]
 
 
-def _abstract_shift(r):
+def _abstract_shift(r, positive=False):
+    """let-bind the (exact) maximum of detached log-kind cells to a fresh symbol m with the axiom m == <exact term>:
+    nothing is over-approximated, but subtracting and re-adding the shift now cancels structurally (symx.sv
+    denominators) instead of dividing by an If-chain inside every product"""
+    from .sv import shift_symbol
     a = r.view(np.ndarray)
     out = np.empty(a.shape, dtype=object)
     for idx in np.ndindex(*a.shape):
-        c = SV.lift(a[idx])
+        c = SV.lift(a[idx]).flat()
         if c.k == "real" and c.p is not None and not c.is_const():
             _SHIFT_COUNTER[0] += 1
-            from .sv import shift_symbol
             m = shift_symbol(engine.fresh_name("shift"))
-            engine.axiom("shift|%s" % m, m > 0)
+            engine.axiom("shift|%s" % m, z3.And(m == c.p, (m > 0) if positive else (m >= 0)))
             out[idx] = SV("real", c.l, m)
         else:
             out[idx] = c
@@ -512,7 +515,11 @@ def _clip(a, a_min=None, a_max=None, out=None, *, min=None, max=None, **kw):
 
     def f(*xs):
         return _clip1(xs[0], xs[los] if los is not None else lo, xs[his] if his is not None else hi)
-    return map_cells(f, *arrs)
+    r = map_cells(f, *arrs)
+    if isinstance(a, DetachedSymArray) and hi is None:
+        # a clamped detached value is still only a stabilising shift; clamped from below by finfo.min it is > -inf
+        return _abstract_shift(r, positive=isinstance(lo, FInfoConst) and lo.which == "min")
+    return r
 
 
 def _argmaxmin(a, axis, is_max, keepdims=False):
